@@ -121,10 +121,10 @@ def split_points(r, data, mode):
     return [x for x in out if x]
 
 
-def history(r, max_reqs=4):
+def history(r, max_reqs=4, kinds=None):
     """returns (script string, expected transcript list, meta)"""
     n = r.choice([1, 1, 2, 2, 3, max_reqs])
-    reqs = [Req(r) for _ in range(n)]
+    reqs = [Req(r, kind=(r.choice(kinds) if kinds else None)) for _ in range(n)]
     steps, exp = [], []
     carry = b""  # bytes of the previous request's body still to be sent together with the next head
     closed = False
